@@ -120,6 +120,18 @@ def post_hs(deviation):
         return 20, b"\x01" + POST_MARK
     if deviation == "post_hs_unknown":
         return 99, POST_MARK
+    if deviation == "post_hs_zero":           # TLS 1.3: a TLSInnerPlaintext with no content and no content type (one zero octet); elsewhere: record type 0
+        return 0, b""
+    if deviation == "post_hs_zero16":
+        return 0, bytes(16)
+    if deviation == "post_hs_alert1":         # an alert record that is not two octets long
+        return 21, b"\x02"
+    if deviation == "post_hs_alert3":
+        return 21, b"\x01\x00\x00"
+    if deviation == "post_hs_alert_warn":     # a well-formed alert that is not close_notify
+        return 21, b"\x01\x5a"
+    if deviation == "post_hs_empty_data":     # application data of length zero
+        return 23, b""
     return None
 
 
